@@ -351,6 +351,18 @@ func c02Rows(c *core.Ctx) {
 				*bad = append(*bad, "names / input index not carried")
 			}
 		}
+		// the strand flag (0x10) and the supplementary flag (0x800) do not change the rows: SEQ is stored in the
+		// reference's orientation whatever strand the query aligned to
+		if err == nil && (gi%4 == 0 || c.Tier == "thorough") {
+			for _, fl := range []int{16, 2064} {
+				g2 := append([]samRec{}, g...)
+				g2[len(g2)-1].Flags = fl
+				fr, fq, _, _, _, err2 := evalPairAlign(c, g2, ref, false)
+				if err2 != nil || fr != gr || fq != gq {
+					*bad = append(*bad, fmt.Sprintf("%s with FLAG %d on its last record -> %q/%q (%v), with FLAG 0 %q/%q", recString(g), fl, fr, fq, err2, gr, gq))
+				}
+			}
+		}
 		// --skip-insertions
 		wantPad, specified := specMultiAlignRow(g, len(ref), true)
 		if specified {
